@@ -13,13 +13,12 @@ Lemma op_wf_write o : is_read o = false -> op_wf o = true.
 Proof. destruct o; try reflexivity; discriminate. Qed.
 
 Lemma build_R : forall ops d sp,
-  R d sp -> forallb (fun o => negb (is_read o) && negb (adds_none o)) ops = true ->
+  R d sp -> forallb (fun o => negb (is_read o)) ops = true ->
   R (build d ops) (fold_left sp_step ops sp).
 Proof.
   induction ops as [|o r IH]; intros d sp H Hw; [exact H|].
-  cbn [forallb] in Hw. apply andb_true_iff in Hw. destruct Hw as [Ho Hr].
-  apply andb_true_iff in Ho. destruct Ho as [H1 H2]. apply negb_true_iff in H1, H2.
-  destruct (do_op_spec d sp o H (op_wf_write o H1) H2 (leaks_write sp o H1)) as (d1 & rs & E & R1 & _).
+  cbn [forallb] in Hw. apply andb_true_iff in Hw. destruct Hw as [H1 Hr]. apply negb_true_iff in H1.
+  destruct (do_op_spec d sp o H (op_wf_write o H1) (leaks_write sp o H1)) as (d1 & rs & E & R1 & _).
   unfold build in *. cbn [fold_left]. rewrite E. cbn [fst]. apply IH; auto.
 Qed.
 
@@ -161,7 +160,7 @@ Qed.
 
 (* every state a building history reaches is related to the specification state *)
 Theorem reachable_R b ops :
-  forallb (fun o => negb (is_read o) && negb (adds_none o)) ops = true ->
+  forallb (fun o => negb (is_read o)) ops = true ->
   R (build (ds_init b) ops) (fold_left sp_step ops sp_init).
 Proof. intros H. apply build_R; auto using R_init. Qed.
 
